@@ -270,6 +270,16 @@ func TestCheck(t *testing.T) {
 	}, body)
 }
 
+// replayCase restricts judging to one recorded case.
+var replayCase *acase
+
+func viol(c *vk.Ctx, key, what string, rep acase) {
+	if replayCase != nil && rep != *replayCase {
+		return
+	}
+	c.Violation(key, what, rep)
+}
+
 type acase struct {
 	Family string `json:"family"`
 	Label  string `json:"label"`
@@ -278,8 +288,15 @@ type acase struct {
 func body(c *vk.Ctx) {
 	f := buildFixture(c.Seed)
 	if c.Replay != "" {
-		c.Broken("C02 replay: re-run the check; every case is identified by its family and label in the violation text")
-		return
+		// every case is identified by (family, label); the families are re-run and only that case is judged
+		var rf struct {
+			Case acase `json:"case"`
+		}
+		if err := vk.ReadJSON(c.Replay, &rf); err != nil || rf.Case.Family == "" {
+			c.Broken("replay file: %v (case %+v)", err, rf.Case)
+			return
+		}
+		replayCase = &rf.Case
 	}
 	var wg sync.WaitGroup
 	sem := make(chan struct{}, 16)
@@ -372,7 +389,7 @@ func positionCase(c *vk.Ctx, f *fixture, pi int, au string, ci int, cite string,
 	w := f.newWorld()
 	base := w.build(f.sim.Acc("O"), f.recs[pi], []string{f.root.Id}, f.root.Id, "base", 1700000100)
 	if _, err := w.add([]string{base.Id}, base); err != nil {
-		c.Violation("authorised-change-rejected:author=O:base", fmt.Sprintf("A1: the owner's base change citing r%d was rejected: %v", pi, err), acase{"A1", fmt.Sprintf("base r%d", pi)})
+		viol(c, "authorised-change-rejected:author=O:base", fmt.Sprintf("A1: the owner's base change citing r%d was rejected: %v", pi, err), acase{"A1", fmt.Sprintf("base r%d", pi)})
 		return
 	}
 	var otherHeads []string // heads of the tree that the case batch does not replace
@@ -381,7 +398,7 @@ func positionCase(c *vk.Ctx, f *fixture, pi int, au string, ci int, cite string,
 		mode = strings.TrimSuffix(mode, "-from-non-head")
 		top := w.build(f.sim.Acc("O"), f.recs[len(f.recs)-1], []string{base.Id}, f.root.Id, "top", 1700000150)
 		if _, err := w.add([]string{top.Id}, top); err != nil {
-			c.Violation("authorised-change-rejected:author=O:top", fmt.Sprintf("A1: the owner's second change on top of the base citing r%d was rejected: %v", pi, err), acase{"A1", fmt.Sprintf("top r%d", pi)})
+			viol(c, "authorised-change-rejected:author=O:top", fmt.Sprintf("A1: the owner's second change on top of the base citing r%d was rejected: %v", pi, err), acase{"A1", fmt.Sprintf("top r%d", pi)})
 			return
 		}
 		otherHeads = []string{top.Id}
@@ -415,7 +432,7 @@ func positionCase(c *vk.Ctx, f *fixture, pi int, au string, ci int, cite string,
 	c.Count("executions", 1)
 	rep := acase{"A1", label}
 	if panicked {
-		c.Violation("panic:"+vk.PanicSite(what), "A1 "+label+": "+what, rep)
+		viol(c, "panic:"+vk.PanicSite(what), "A1 "+label+": "+what, rep)
 		return
 	}
 	gotAccepted := false
@@ -433,18 +450,18 @@ func positionCase(c *vk.Ctx, f *fixture, pi int, au string, ci int, cite string,
 	}
 	c.Distinct("distinct", fmt.Sprintf("A1|%s|c%d|p%d|%s|%s", au, ci, pi, mode, verdict))
 	if gotAccepted && !want {
-		c.Violation(fmt.Sprintf("unauthorised-change-accepted:author=%s:%s", au, reason(f, au, ci, pi)), "A1 "+label+": the change was attached / stored", rep)
+		viol(c, fmt.Sprintf("unauthorised-change-accepted:author=%s:%s", au, reason(f, au, ci, pi)), "A1 "+label+": the change was attached / stored", rep)
 	}
 	if !gotAccepted && want {
-		c.Violation(fmt.Sprintf("authorised-change-rejected:author=%s", au), fmt.Sprintf("A1 %s: a change the author was entitled to make was rejected (%v)", label, err), rep)
+		viol(c, fmt.Sprintf("authorised-change-rejected:author=%s", au), fmt.Sprintf("A1 %s: a change the author was entitled to make was rejected (%v)", label, err), rep)
 	}
 	if err != nil {
 		if after := w.snap(); after != before {
-			c.Violation("rejected-batch-changed-state:"+diffField(before, after), fmt.Sprintf("A1 %s: AddRawChanges failed (%v) but heads / iteration / storage changed", label, err), rep)
+			viol(c, "rejected-batch-changed-state:"+diffField(before, after), fmt.Sprintf("A1 %s: AddRawChanges failed (%v) but heads / iteration / storage changed", label, err), rep)
 		}
 	}
 	for _, fd := range w.judgeState(nil) {
-		c.Violation(fd.key, "A1 "+label+": "+fd.what, rep)
+		viol(c, fd.key, "A1 "+label+": "+fd.what, rep)
 	}
 	if c.Shard == 0 && pi == 2 && strings.HasPrefix(mode, "alone") && (ci == 1 || ci == 2 || ci == 3) {
 		c.Sample(map[string]any{"family": "A1", "case": label, "verdict": verdict, "error": fmt.Sprint(err)})
@@ -478,7 +495,7 @@ search:
 	}
 	for _, b := range []*treechangeproto.RawTreeChangeWithId{b1, b2} {
 		if _, err := w.add([]string{b.Id}, b); err != nil {
-			c.Violation("authorised-change-rejected:author=O:merge-parent", fmt.Sprintf("A3 %s: an owner's change on the root was rejected: %v", label, err), rep)
+			viol(c, "authorised-change-rejected:author=O:merge-parent", fmt.Sprintf("A3 %s: an owner's change on the root was rejected: %v", label, err), rep)
 			return
 		}
 	}
@@ -492,7 +509,7 @@ search:
 	c.Count("evaluations", 1)
 	c.Count("executions", 1)
 	if panicked {
-		c.Violation("panic:"+vk.PanicSite(what), "A3 "+label+": "+what, rep)
+		viol(c, "panic:"+vk.PanicSite(what), "A3 "+label+": "+what, rep)
 		return
 	}
 	got := false
@@ -504,18 +521,18 @@ search:
 	}
 	c.Distinct("distinct", fmt.Sprintf("A3|%s|c%d|p%d,%d|%v|%v", au, ci, p1, p2, firstLess, got))
 	if got && !want {
-		c.Violation(fmt.Sprintf("unauthorised-change-accepted:merge:author=%s:%s", au, reason(f, au, ci, hi)), "A3 "+label+": the merge change was attached / stored", rep)
+		viol(c, fmt.Sprintf("unauthorised-change-accepted:merge:author=%s:%s", au, reason(f, au, ci, hi)), "A3 "+label+": the merge change was attached / stored", rep)
 	}
 	if !got && want {
-		c.Violation(fmt.Sprintf("authorised-change-rejected:merge:author=%s", au), fmt.Sprintf("A3 %s: a merge change the author was entitled to make was rejected (%v)", label, err), rep)
+		viol(c, fmt.Sprintf("authorised-change-rejected:merge:author=%s", au), fmt.Sprintf("A3 %s: a merge change the author was entitled to make was rejected (%v)", label, err), rep)
 	}
 	if err != nil {
 		if after := w.snap(); after != before {
-			c.Violation("rejected-batch-changed-state:merge:"+diffField(before, after), fmt.Sprintf("A3 %s: AddRawChanges failed (%v) but heads / iteration / storage changed", label, err), rep)
+			viol(c, "rejected-batch-changed-state:merge:"+diffField(before, after), fmt.Sprintf("A3 %s: AddRawChanges failed (%v) but heads / iteration / storage changed", label, err), rep)
 		}
 	}
 	for _, fd := range w.judgeState(nil) {
-		c.Violation(fd.key, "A3 "+label+": "+fd.what, rep)
+		viol(c, fd.key, "A3 "+label+": "+fd.what, rep)
 	}
 }
 
@@ -590,11 +607,11 @@ func continueCase(c *vk.Ctx, f *fixture, cGreater bool, badParent, au, cont stri
 	c.Count("evaluations", 1)
 	c.Count("executions", 2)
 	if err == nil {
-		c.Violation("unauthorised-change-accepted:A4:author="+au, "A4 "+label+": the unauthorised change was not refused", rep)
+		viol(c, "unauthorised-change-accepted:A4:author="+au, "A4 "+label+": the unauthorised change was not refused", rep)
 		return
 	}
 	if after := w.snap(); after != before {
-		c.Violation("rejected-batch-changed-state:A4:"+diffField(before, after), fmt.Sprintf("A4 %s: AddRawChanges failed (%v) but heads / iteration / storage changed", label, err), rep)
+		viol(c, "rejected-batch-changed-state:A4:"+diffField(before, after), fmt.Sprintf("A4 %s: AddRawChanges failed (%v) but heads / iteration / storage changed", label, err), rep)
 		return
 	}
 	var parents []string
@@ -614,16 +631,16 @@ func continueCase(c *vk.Ctx, f *fixture, cGreater bool, badParent, au, cont stri
 	c.Distinct("distinct", fmt.Sprintf("A4|%s|%v|%v", label, e1 == nil, r1.Mode))
 	switch {
 	case (e1 == nil) != (e2 == nil):
-		c.Violation("refused-batch-changes-next-verdict", fmt.Sprintf("A4 %s: the owner's next change ends %v after the refusal but %v on a tree that never saw the refused change", label, e1, e2), rep)
+		viol(c, "refused-batch-changes-next-verdict", fmt.Sprintf("A4 %s: the owner's next change ends %v after the refusal but %v on a tree that never saw the refused change", label, e1, e2), rep)
 	case r1.Mode != r2.Mode:
-		c.Violation("refused-batch-changes-next-mode", fmt.Sprintf("A4 %s: the owner's next change is reported with mode %v after the refusal but %v on a tree that never saw the refused change", label, r1.Mode, r2.Mode), rep)
+		viol(c, "refused-batch-changes-next-mode", fmt.Sprintf("A4 %s: the owner's next change is reported with mode %v after the refusal but %v on a tree that never saw the refused change", label, r1.Mode, r2.Mode), rep)
 	case w.snap() != twin.snap():
-		c.Violation("refused-batch-changes-next-state:"+diffField(twin.snap(), w.snap()), fmt.Sprintf("A4 %s: after the owner's next change heads / iteration / storage differ from a tree that never saw the refused change", label), rep)
+		viol(c, "refused-batch-changes-next-state:"+diffField(twin.snap(), w.snap()), fmt.Sprintf("A4 %s: after the owner's next change heads / iteration / storage differ from a tree that never saw the refused change", label), rep)
 	case w.orders() != twin.orders():
-		c.Violation("refused-batch-changes-stored-order", fmt.Sprintf("A4 %s: stored order ids after the owner's next change: %s; on a tree that never saw the refused change: %s", label, w.orders(), twin.orders()), rep)
+		viol(c, "refused-batch-changes-stored-order", fmt.Sprintf("A4 %s: stored order ids after the owner's next change: %s; on a tree that never saw the refused change: %s", label, w.orders(), twin.orders()), rep)
 	}
 	for _, fd := range w.judgeState(nil) {
-		c.Violation(fd.key, "A4 "+label+": "+fd.what, rep)
+		viol(c, fd.key, "A4 "+label+": "+fd.what, rep)
 	}
 }
 
@@ -664,7 +681,7 @@ func mutationCases(c *vk.Ctx, f *fixture, vals int, run func(func())) {
 	{
 		w, _, v := mk()
 		if _, err := w.add([]string{v.Id}, v); err != nil {
-			c.Violation("authorised-change-rejected:author=W:victim", fmt.Sprintf("A2: writer W's unaltered change citing r3 (after W was later removed and re-added) is rejected: %v", err), acase{"A2", "victim"})
+			viol(c, "authorised-change-rejected:author=W:victim", fmt.Sprintf("A2: writer W's unaltered change citing r3 (after W was later removed and re-added) is rejected: %v", err), acase{"A2", "victim"})
 			return
 		}
 	}
@@ -847,7 +864,7 @@ func mutationCases(c *vk.Ctx, f *fixture, vals int, run func(func())) {
 				c.Count("evaluations", 1)
 				c.Count("executions", 1)
 				if panicked {
-					c.Violation("panic:"+vk.PanicSite(what), "A2 "+label+": "+what, rep)
+					viol(c, "panic:"+vk.PanicSite(what), "A2 "+label+": "+what, rep)
 					return
 				}
 				got := false
@@ -869,18 +886,18 @@ func mutationCases(c *vk.Ctx, f *fixture, vals int, run func(func())) {
 				}
 				c.Distinct("distinct", "A2|"+m.class+"|"+mode+"|"+verdict)
 				if got && !allowed {
-					c.Violation("altered-change-accepted:"+m.class, "A2 "+label+": the altered change was attached / stored", rep)
+					viol(c, "altered-change-accepted:"+m.class, "A2 "+label+": the altered change was attached / stored", rep)
 				}
 				if !got && allowed {
-					c.Violation("authorised-resigned-change-rejected:"+m.class, fmt.Sprintf("A2 %s: a correctly re-signed, authorised change was rejected (%v)", label, err), rep)
+					viol(c, "authorised-resigned-change-rejected:"+m.class, fmt.Sprintf("A2 %s: a correctly re-signed, authorised change was rejected (%v)", label, err), rep)
 				}
 				if err != nil {
 					if after := w.snap(); after != before {
-						c.Violation("rejected-batch-changed-state:"+diffField(before, after), fmt.Sprintf("A2 %s: AddRawChanges failed (%v) but heads / iteration / storage changed", label, err), rep)
+						viol(c, "rejected-batch-changed-state:"+diffField(before, after), fmt.Sprintf("A2 %s: AddRawChanges failed (%v) but heads / iteration / storage changed", label, err), rep)
 					}
 				}
 				for _, fd := range w.judgeState(nil) {
-					c.Violation(fd.key, "A2 "+label+": "+fd.what, rep)
+					viol(c, fd.key, "A2 "+label+": "+fd.what, rep)
 				}
 				if mi%977 == 0 && mode == "alone" {
 					c.Sample(map[string]any{"family": "A2", "case": label, "verdict": verdict, "error": fmt.Sprint(err)})
